@@ -57,7 +57,7 @@ class Profile:
         self.nK = 3
         self.nF = 8            # functor ids
         self.flavours = ["V", "I", "A", "TV", "TI", "TA", "AV", "TAV"]
-        self.specs = {"fn": 6, "mem": 2, "sc": 1, "trk": 2, "trk2": 1, "bref": 1, "nest": 1, "fwd": 1, "ownT": 1, "ownK": 1}
+        self.specs = {"fn": 6, "mem": 2, "sc": 1, "trk": 2, "trk2": 1, "bref": 1, "nest": 1, "fwd": 1, "ownT": 1, "ownK": 1, "ownG": 1}
         self.body_prob = 0.3   # probability that a functor id has a body
         self.body_len = (1, 4)
         self.len = (10, 60)
@@ -88,12 +88,13 @@ class Gen:
         self.T = set()
         self.S = {}    # name -> 'I'|'V'
         self.G = {}    # name -> flavour
+        self.Groot = {}   # signal name -> name of the newG it descends from (copies and moves keep it)
         self.C = set()
         self.K = set()
         self.lines = []
         self.bodies = {}
         # program mode: owning functors XOR connecting empty slots (docs/LANGUAGE.md)
-        self.owners = bool(prof.specs.get("ownT", 0) or prof.specs.get("ownK", 0)) and rng.chance(0.5)
+        self.owners = bool(prof.specs.get("ownT", 0) or prof.specs.get("ownK", 0) or prof.specs.get("ownG", 0)) and rng.chance(0.5)
 
     # --- helpers
     def pick(self, pool, n, want_alive, alive_p=0.9):
@@ -111,7 +112,7 @@ class Gen:
         return "V" if fl in ("V", "TV", "AV", "TAV") else "I"
 
     def spec(self, want_void=None, level=None):
-        kinds = [(k, w) for k, w in self.p.specs.items() if w > 0 and (self.owners or k not in ("ownT", "ownK"))]
+        kinds = [(k, w) for k, w in self.p.specs.items() if w > 0 and (self.owners or k not in ("ownT", "ownK", "ownG"))]
         k = self.r.weighted(kinds)
         fid = self.r.below(self.p.nF)
         if k == "fn":
@@ -126,6 +127,8 @@ class Gen:
             return "ownT:%d:T%d" % (fid, self.pick(self.T, self.p.nT, True))
         if k == "ownK":
             return "ownK:%d:K%d" % (fid, self.pick(self.K, self.p.nK, True))
+        if k == "ownG":
+            return "ownG:%d:G%d" % (fid, self.pick(self.G, self.p.nG, True))
         if k == "nest":
             cands = [s for s, t in self.S.items() if want_void is None or t == ("V" if want_void else "I")
                      or (want_void and t == "I")]
@@ -205,17 +208,28 @@ class Gen:
             fl = r.choice(p.flavours)
             if not in_body and i not in self.G:
                 self.G[i] = fl
+                self.Groot[i] = i
             return "newG G%d %s" % (i, fl)
         if op in ("cpG", "mvG"):
             j = self.pick(self.G, p.nG, False)
             i = self.pick(self.G, p.nG, True)
             if not in_body and i in self.G and j not in self.G:
                 self.G[j] = self.G[i]
+                self.Groot[j] = self.Groot.get(i, i)
             return "%s G%d G%d" % (op, j, i)
         if op in ("asgG", "masgG"):
             j = self.pick(self.G, p.nG, True)
+            # assignment is only defined between signal objects descending from the same `newG` (same level):
+            # mostly pick another member of j's family, sometimes j itself (self-assignment), sometimes anything
+            family = [g for g in self.G if g != j and self.Groot.get(g, g) == self.Groot.get(j, j)
+                      and self.G.get(g) == self.G.get(j)]
             same = [g for g in self.G if self.G.get(g) == self.G.get(j)]
-            i = r.choice(sorted(same)) if same and r.chance(0.85) else self.pick(self.G, p.nG, True)
+            if family and r.chance(0.7):
+                i = r.choice(sorted(family))
+            elif same and r.chance(0.6):
+                i = r.choice(sorted(same))
+            else:
+                i = self.pick(self.G, p.nG, True)
             return "%s G%d G%d" % (op, j, i)
         if op in ("delG", "clear", "size?", "emptyG?", "blockedG?"):
             i = self.pick(self.G, p.nG, True)
